@@ -10,7 +10,7 @@ use std::collections::BTreeMap;
 /// failures of other modules' hostile streams that are about C07's subject matter
 fn relevant(f: &str) -> bool {
     let f = f.to_lowercase();
-    ["ledger", "unshare", "dealloc", "panick", "twice", "double", "exceed", "beyond", "not shared", "unmapped", "more than", "longer than", "corrupt", "harness panic", "overlap"]
+    ["ledger", "unshare", "dealloc", "panick", "twice", "double", "exceed", "beyond", "not shared", "unmapped", "more than", "longer than", "corrupt", "harness panic", "overlap", "does not return", "did not terminate", "busy-wait", "spin", "outside", "window", "still shared"]
         .iter()
         .any(|k| f.contains(k))
 }
@@ -24,6 +24,11 @@ pub fn run(ctx: &Ctx) -> (Vec<Case>, String, bool, BTreeMap<String, String>) {
     extra.extend(crate::c15_console::run(ctx).0);
     extra.extend(crate::c16_net::run(ctx).0);
     extra.extend(crate::c18_vsockconn::run(ctx).0);
+    // blocking sound transfers against devices that answer with errors / out of order: every call ends
+    extra.extend(crate::c20_cmd::sound_cases(ctx, "C07", ctx.tier.pick(300, 5000)));
+    // configuration accesses at every offset around the end of the device's window (MMIO and PCI):
+    // nothing outside the window is touched, whatever lengths the device advertises
+    extra.extend(crate::c13_config::bounds_cases(ctx));
     for c in extra.iter_mut() {
         c.oracle_failures.retain(|f| relevant(f));
         for f in c.oracle_failures.iter_mut() {
@@ -33,6 +38,6 @@ pub fn run(ctx: &Ctx) -> (Vec<Case>, String, bool, BTreeMap<String, String>) {
         c.tag("driver-level");
     }
     all.extend(extra);
-    let rule = "queue level: random walk of {add, raw used-ring element with arbitrary id (never issued, out of range, aliasing after u16 truncation, repeated) and arbitrary length, used-index jumps, scribbling over descriptor table / available ring / available index, polls by a contract-following caller}; compared with the model on results, driver-private state and platform events (device-visible stores are not compared under scribbling); oracles: no panic under the caller contract, ledger (no double unshare / unknown address / mismatch), num_used and live shares equal what the caller's outstanding chains account for; driver level: the event-queue (oversize and under-written lengths), console hostile, net and vsock malformed-device streams of C19/C15/C16/C18 with their ledger / panic / slice-bound oracles; non-trivial = at least one submission or consumption happened; distinct = distinct transcript".to_string();
+    let rule = "queue level: random walk of {add, raw used-ring element with arbitrary id (never issued, out of range, aliasing after u16 truncation, repeated) and arbitrary length, used-index jumps, scribbling over descriptor table / available ring / available index, polls by a contract-following caller}; compared with the model on results, driver-private state and platform events (device-visible stores are not compared under scribbling); oracles: no panic under the caller contract, ledger (no double unshare / unknown address / mismatch), num_used and live shares equal what the caller's outstanding chains account for; driver level: the event-queue (oversize and under-written lengths), console hostile, net and vsock malformed-device streams of C19/C15/C16/C18 with their ledger / panic / slice-bound oracles, the sound stream of C20 (every blocking transfer returns, nothing left shared) and the configuration-window bounds streams of C13; non-trivial = at least one submission or consumption happened; distinct = distinct transcript".to_string();
     (all, rule, false, BTreeMap::new())
 }
